@@ -689,6 +689,92 @@ func (g *c09Gen) raw(fn string, args ...string) {
 	g.c.Obs(id, fn, r)
 }
 
+// keyMatch / keyGet with the star ANYWHERE in the pattern (in the middle, doubled, followed by a
+// suffix, first byte): the documented semantics cover the trailing star only, but the model
+// follows the code for every pattern (prefix up to the first star), so these are correspondence
+// cases: every pattern of <= 4 bytes over {a / *} against every path of <= 4 bytes over {a b /}.
+func (g *c09Gen) starGrid() {
+	var gen func(alpha string, n int, cur string, out *[]string)
+	gen = func(alpha string, n int, cur string, out *[]string) {
+		*out = append(*out, cur)
+		if len(cur) == n {
+			return
+		}
+		for i := 0; i < len(alpha); i++ {
+			gen(alpha, n, cur+alpha[i:i+1], out)
+		}
+	}
+	var pats, paths []string
+	gen("a/*", 4, "", &pats)
+	gen("ab/", 4, "", &paths)
+	for _, p := range pats {
+		if !strings.Contains(p, "*") {
+			continue
+		}
+		for _, k := range paths {
+			g.raw("km", k, p)
+			g.raw("kg", k, p)
+		}
+	}
+	g.c.Count("star-anywhere-grid")
+}
+
+// the govaluate wrappers are functions of their two arguments: pairs (path, pattern) whose
+// concatenations coincide, asked in both orders in one process, each answer compared with the
+// plain function's answer for the same pair.
+func (g *c09Gen) wrapperPairs() {
+	type fn struct {
+		name  string
+		wrap  func(...interface{}) (interface{}, error)
+		plain func(string, string) bool
+	}
+	fns := []fn{{"keyMatch", util.KeyMatchFunc, util.KeyMatch}, {"keyMatch2", util.KeyMatch2Func, util.KeyMatch2}, {"keyMatch3", util.KeyMatch3Func, util.KeyMatch3}, {"keyMatch4", util.KeyMatch4Func, util.KeyMatch4}, {"keyMatch5", util.KeyMatch5Func, util.KeyMatch5}, {"regexMatch", util.RegexMatchFunc, util.RegexMatch}, {"globMatch", util.GlobMatchFunc, func(a, b string) bool { ok, _ := util.GlobMatch(a, b); return ok }}}
+	pairs := [][2][2]string{
+		{{"/res/a", "/res/:id"}, {"/res/a/res", "/:id"}},
+		{{"/res/a", "/res/{id}"}, {"/res/a/res", "/{id}"}},
+		{{"/a", "/a/*"}, {"/a/a", "/*"}},
+		{{"/x/y", "/x/y"}, {"/x", "/y/x/y"}},
+		{{"ab", "c"}, {"a", "bc"}},
+		{{"/b/1", "/b/:i"}, {"/b/1/b", "/:i"}},
+	}
+	for _, f := range fns {
+		for pi, pr := range pairs {
+			for _, first := range []int{0, 1} {
+				for _, k := range []int{first, 1 - first, first} {
+					a, b := pr[k][0], pr[k][1]
+					var got interface{}
+					var err error
+					func() {
+						defer func() {
+							if r := recover(); r != nil {
+								err = fmt.Errorf("panic: %v", r)
+							}
+						}()
+						got, err = f.wrap(a, b)
+					}()
+					var want bool
+					wantPanic := false
+					func() {
+						defer func() {
+							if r := recover(); r != nil {
+								wantPanic = true
+							}
+						}()
+						want = f.plain(a, b)
+					}()
+					if wantPanic || err != nil {
+						continue
+					}
+					if gb, ok := got.(bool); !ok || gb != want {
+						g.c.Direct(fmt.Sprintf("c09.wrapper-pure.%s.%d", f.name, pi), fmt.Sprintf("%sFunc(%q, %q) answered %v after other calls in this process, the plain function answers %v", f.name, a, b, got, want), "")
+					}
+				}
+			}
+		}
+	}
+	g.c.Count("wrapper-pairs")
+}
+
 func (g *c09Gen) outside() {
 	for _, w := range [][]string{
 		{"km2", "/a/b\nc", "/a/*"}, {"km3", "/a/b\nc", "/a/*"}, {"km4", "/a/b\nc", "/a/*"}, {"km5", "/a/b\nc", "/a/*"},
@@ -1232,6 +1318,8 @@ func init() {
 		g.hostile(nHostile, false)
 		g.hostile(nHostile/20, true)
 		g.outside()
+		g.starGrid()
+		g.wrapperPairs()
 		g.funcs()
 		g.ips(nIP)
 		g.concurrent()
